@@ -26,16 +26,16 @@ impl<'a> WireFormat<'a> for DS<'a> {
     where
         Self: Sized,
     {
-        let key_tag = u16::from_be_bytes(data[*position..*position + 2].try_into()?);
+        let key_tag = u16::from_be_bytes(data.get(*position..*position + 2).ok_or(crate::SimpleDnsError::InsufficientData)?.try_into()?);
         *position += 2;
 
-        let algorithm = data[*position];
+        let algorithm = *data.get(*position).ok_or(crate::SimpleDnsError::InsufficientData)?;
         *position += 1;
 
-        let digest_type = data[*position];
+        let digest_type = *data.get(*position).ok_or(crate::SimpleDnsError::InsufficientData)?;
         *position += 1;
 
-        let digest = Cow::Borrowed(&data[*position..]);
+        let digest = Cow::Borrowed(data.get(*position..).ok_or(crate::SimpleDnsError::InsufficientData)?);
         *position += digest.len();
 
         Ok(Self {
